@@ -396,6 +396,8 @@ type monitor struct {
 	votingSeen   map[uint64]map[uint64]bool // C18: peers a replica saw as voting since its last Update
 	prevCommit   map[uint64]uint64    // C02: commit index of a leader at its previous operation
 	hbAck        map[[2]uint64]map[uint64]bool // C06/C18: read ctx -> replicas that sent a HeartbeatResp carrying it
+	votingPrev   map[uint64]string             // voting set of a replica at its previous operation
+	votingMoved  map[uint64]bool               // the voting set of a replica changed since its last Update
 	viol         []string
 	elections    int
 	commits      int
@@ -432,6 +434,7 @@ func (mo *monitor) observe(c *raftsim.Cluster, op string, res raftsim.Result) {
 				}
 			}
 			mo.votingSeen[res.Node.ID] = cur
+			delete(mo.votingMoved, res.Node.ID)
 		}
 	}()
 	n := res.Node
@@ -446,9 +449,22 @@ func (mo *monitor) observe(c *raftsim.Cluster, op string, res raftsim.Result) {
 	if mo.votingSeen[n.ID] == nil {
 		mo.votingSeen[n.ID] = map[uint64]bool{}
 	}
-	for _, rm := range st.Remotes {
-		if rm.Kind == 0 || rm.Kind == 2 {
-			mo.votingSeen[n.ID][rm.ID] = true
+	{
+		var cur []uint64
+		for _, rm := range st.Remotes {
+			if rm.Kind == 0 || rm.Kind == 2 {
+				mo.votingSeen[n.ID][rm.ID] = true
+				cur = append(cur, rm.ID)
+			}
+		}
+		if mo.votingPrev == nil {
+			mo.votingPrev, mo.votingMoved = map[uint64]string{}, map[uint64]bool{}
+		}
+		if sig := fmt.Sprint(cur); mo.votingPrev[n.ID] != sig {
+			if _, seen := mo.votingPrev[n.ID]; seen {
+				mo.votingMoved[n.ID] = true
+			}
+			mo.votingPrev[n.ID] = sig
 		}
 	}
 	switch f[0] {
@@ -748,7 +764,7 @@ func (mo *monitor) checkReadQuorum(n *raftsim.Node) {
 			voting[rm.ID] = true
 		}
 	}
-	if !voting[n.ID] || len(voting) != len(mo.votingSeen[n.ID]) {
+	if !voting[n.ID] || len(voting) != len(mo.votingSeen[n.ID]) || mo.votingMoved[n.ID] {
 		return
 	}
 	best := 1
